@@ -6,6 +6,11 @@ BASE = "cd /repo && go test -mod=mod -json -vet=off -count=1 -timeout 25m ./..."
 
 CLAIMED = {
  # id: (category, text, design_ref, level_note, technique)
+ "C06": ("other",
+  "Decides, for every path of each of the 17 stateful kernels and all 41 wrappers, that what is carried between timesteps comes from and goes back to the state vector: every value carried around the time loop (SSA header phi or buffer allocated outside the loop and read before written) that influences outputs is initialised from a STATE argument and reaches a returned state; a state the kernel evolves is not returned unevolved; wrappers read state k into kernel argument nInputs+k and write the kernel's k-th state result back to position k (or extract→kernel→pack in matching order); the two custom pack/extract pairs store the contents of every component and read it at the same symbolic offset. This found five genuine defects (three repaired, two recorded as known findings needing new state variables). Numerical equality of split and unsplit runs is NOT decided.",
+  "DESIGN.md section 2, C06",
+  "One symbol-wide exception (storageRouting:qi, solver warm start, within the property's stated tolerance). Time loops are recognised as outermost loops bounded by a series length; control influence is approximated by branch regions.",
+  "loop-carried-value (SSA phi / memory) provenance analysis + symbolic layout comparison of pack/extract"),
  "C09": ("translation_validation",
   "Every generated file is validated against its generator on every run: in a scratch copy of the working tree all 47 generated files are deleted, genny and ow-specgen are rebuilt from the tree/module cache and re-run, and each output is byte-compared with the checked-in file (orphans and missing files fail). In addition the type-checked program is inspected: each OW-SPEC model has exactly one catalogue registration under its name whose factory returns that type, and Description() lists parameters (name, default, range, dimensions), inputs, outputs, states in spec order, so a template defect that regenerates consistently is still reported.",
   "DESIGN.md section 2, C09",
